@@ -104,3 +104,17 @@ add("C10",
     rayon_threads=4,
     require_counts=["needs_recover_before_followup_prune", "followup_prune_recovered_packs", "control_data_loss_executions", "executions:backup||backup"],
     )
+
+add("C17",
+    engine="ENUM",
+    level="exploration",
+    technique="bounded exhaustive enumeration of index-file collections against a map reference model",
+    design_ref="DESIGN.md §4.5, §5 C17",
+    level_text="Every assignment of {absent, (tree|data) x every blob multiset over ids {x,y,z} incl. an id twice and unsorted order x marked/unmarked} to three packs, "
+               "every split of the listings over two index files and a repeated listing, is loaded into the real index in all three modes (full, data-ids, only-trees) through the verif hook; "
+               "every (type,id) presence query, lookup, size total and the pack iteration are compared with a map model built from the unmarked listings. A two-pack slice is additionally written "
+               "(independently encrypted) to a store and queried through a real repository handle.",
+    level_note="Ids, lengths and pack counts are tiny by construction (3 ids, 3 packs, 2 files); mixed-type packs are not generated (the library never writes them).",
+    shards={"quick": 16, "thorough": 16},
+    require_counts=["end_to_end_cases"],
+    )
